@@ -1639,3 +1639,55 @@ pub fn byte_sweep(k: usize) -> (&'static str, Vec<u8>) {
         }
     }
 }
+
+/// Length-field sweep (round 3): every length-bearing leaf × the interesting declared lengths.  `k` enumerates
+/// 8 kinds × 12 lengths; `limit` is the limit in force for that kind (the caller passes its options).
+/// Bodies are supplied for small non-negative lengths so that limit and limit+1 are both decodable inputs.
+pub fn length_sweep(k: usize, lim: &Lim) -> (&'static str, Vec<u8>) {
+    let kind = k % 8;
+    let limit = match kind {
+        0 | 2 | 5 => lim.max_str,
+        1 | 6 => lim.max_bytes,
+        _ => lim.max_arr,
+    } as i64;
+    let len: i64 = match (k / 8) % 12 {
+        0 => -2,
+        1 => -1,
+        2 => 0,
+        3 => 1,
+        4 => i32::MIN as i64,
+        5 => i32::MIN as i64 + 1,
+        6 => i32::MAX as i64,
+        7 => limit - 1,
+        8 => limit,
+        9 => limit + 1,
+        10 => limit + 2,
+        _ => 3,
+    };
+    let len = len.clamp(i32::MIN as i64, i32::MAX as i64) as i32;
+    let body = (len.max(0) as usize).min(70_000);
+    let mut b: Vec<u8> = Vec::new();
+    let ty = match kind {
+        0 => { b.push(12); "Variant" }                                  // String
+        1 => { b.push(15); "Variant" }                                  // ByteString
+        2 => { b.push(16); "Variant" }                                  // XmlElement
+        3 => { b.push(0x81); "Variant" }                                // Boolean array
+        4 => { b.extend_from_slice(&[0xC1, 1, 0, 0, 0, 1]); "Variant" } // dimensions of a 1-element array
+        5 => { b.extend_from_slice(&[17, 3, 0, 0]); "Variant" }         // NodeId string identifier
+        6 => { b.extend_from_slice(&[22, 0, 0, 1]); "Variant" }         // ExtensionObject byte string body
+        _ => { b.extend_from_slice(&[0x10]); "DiagnosticInfo" }         // additional info string
+    };
+    b.extend_from_slice(&len.to_le_bytes());
+    match kind {
+        3 => b.extend(std::iter::repeat(1u8).take(body)),
+        4 => {
+            for _ in 0..body.min(5000) {
+                b.extend_from_slice(&1i32.to_le_bytes());
+            }
+        }
+        1 | 6 => b.extend(std::iter::repeat(0u8).take(body)),
+        _ => b.extend(std::iter::repeat(b'a').take(body)),
+    }
+    b.push(0xEE);
+    (ty, b)
+}
